@@ -2,6 +2,7 @@
 from hypothesis import strategies as st
 
 from asyncfix import FMsg
+from asyncfix.connection import ConnectionState
 from asyncfix.errors import FIXConnectionError
 from asyncfix.message import FIXMessage, MessageDirection
 from vlib.hyp import run_given
@@ -19,6 +20,8 @@ TASKSETS = [
     ("I:logon", "I:logout"), ("I:logon", "A"), ("I:logon", "I:logout", "A"),
     # a sender of one large frame (100 KB, beyond any transport buffer limit) next to ordinary senders
     ("L", "A"), ("L", "H"),
+    # the application ends the connection (disconnect() with / without a Logout) while the reader serves a ResendRequest and another task sends
+    ("R:resend", "X:drop", "A"), ("R:resend", "X:logout", "A"), ("A", "X:drop"),
 ]
 
 
@@ -30,7 +33,7 @@ def RULE(tier):
         "application task A / B sending 2 messages each, a task L sending one 100 KB frame, the real reader task processing an injected ResendRequest over a "
         "pre-filled journal (also two requests back to back), a TestRequest, a frame above the expected number, an application "
         "message, the first Logon, the heartbeat path (send_test_req), and an initiator application sending its first Logon while "
-        "other tasks send Logout / application messages. EXHAUSTIVE depth-first enumeration of all choice "
+        "other tasks send Logout / application messages, and an application task that ends the connection (disconnect() with or without a Logout). EXHAUSTIVE depth-first enumeration of all choice "
         f"sequences (start a task / open gate k / pause / resume / reset the connection while senders wait in drain) up to {G[tier]} choices, each schedule re-executed from scratch and then "
         "run to completion, plus Hypothesis-drawn longer schedules. Oracle on the bytes written, in wire order: the concatenation of all writes is a sequence of well-formed frames; new frames (no "
         "PossDupFlag, not SequenceReset) carry distinct, strictly increasing MsgSeqNums; a PossDup frame repeats a number sent "
@@ -50,6 +53,7 @@ ASSUMPTIONS = [
 
 class Sched:
     def __init__(self, tasks, start="active"):
+        self.tasknames = tuple(tasks)
         if any(t.startswith("I:") for t in tasks):
             from checks.c11 import make_bench
 
@@ -81,10 +85,17 @@ class Sched:
         """Journal with replayable and non-replayable messages, sent before the gates are armed."""
         gate = self.ep.hook_gate
         self.ep.hook_gate = None
-        for i in range(3):
-            txt = "NOREPLAY" if i == 1 else f"old{i}"
-            self.w.call(self.ep.send_msg(FIXMessage(FMsg.NEWORDERSINGLE, {11: f"old{i}", 58: txt})))
-        self.w.call(self.ep.send_msg(FIXMessage(FMsg.HEARTBEAT)))
+        if any(t.startswith("X:") for t in self.tasknames):
+            # few gates (so that the bounded DFS reaches the end of the replay) and a journal ending with two replayable
+            # messages in a row: the last suspension point of the replay is then the drain of a retransmission
+            self.w.call(self.ep.send_msg(FIXMessage(FMsg.HEARTBEAT)))
+            for i in (0, 3):
+                self.w.call(self.ep.send_msg(FIXMessage(FMsg.NEWORDERSINGLE, {11: f"old{i}", 58: f"old{i}"})))
+        else:
+            for i in range(3):
+                txt = "NOREPLAY" if i == 1 else f"old{i}"
+                self.w.call(self.ep.send_msg(FIXMessage(FMsg.NEWORDERSINGLE, {11: f"old{i}", 58: txt})))
+            self.w.call(self.ep.send_msg(FIXMessage(FMsg.HEARTBEAT)))
         self.ep.hook_gate = gate
 
     def _track(self):
@@ -122,6 +133,16 @@ class Sched:
             self.tasks[name] = self.w.loop.create_task(self._app(name))
         elif name == "H":
             self.tasks[name] = self.w.loop.create_task(self._hb())
+        elif name in ("X:drop", "X:logout"):
+            async def bye(name=name):
+                try:
+                    await self.ep.disconnect(ConnectionState.DISCONNECTED_BROKEN_CONN if name == "X:drop" else ConnectionState.DISCONNECTED_WCONN_TODAY,
+                                             logout_message=None if name == "X:drop" else "bye")
+                except (FIXConnectionError, ConnectionError):
+                    pass
+                except BaseException as e:  # noqa
+                    self.errors.append((name, type(e).__name__, str(e)))
+            self.tasks[name] = self.w.loop.create_task(bye())
         elif name in ("I:logon", "I:logout"):
             msg = FIXMessage(FMsg.LOGON, {98: 0, 108: 30}) if name == "I:logon" else FIXMessage(FMsg.LOGOUT, {58: "bye"})
 
@@ -304,7 +325,7 @@ def execute(acc, tasks, schedule, origin, judge=True):
                 if hit:
                     bad("gapfill-covers-replayable-message", f"GapFill {lo}->{hi + 1} skips the replayable application message(s) {hit} (a peer honouring it never receives them)")
                     break
-        if s.expected_replay is not None and done and not s.failed:
+        if s.expected_replay is not None and done and not s.failed and not any(t.startswith("X:") for t in tasks):
             retr = set()
             for fr in frames:
                 p = ref_parse(fr)
